@@ -3913,10 +3913,15 @@ def _float_min_max(expr):
     #
     # But this includes the NaN output of "SRC1 < SRC2"
     # Associated text is more detailed, and this is the version impl here
+    # Both operands are zeros (of either sign): the second one is returned
+    both_zero = m2_expr.ExprCond((src1 | src2)[:-1],
+                                 m2_expr.ExprInt(0, 1),
+                                 m2_expr.ExprInt(1, 1))
     return m2_expr.ExprCond(
         m2_expr.expr_is_sNaN(src2), src2,
         m2_expr.ExprCond(
-            m2_expr.expr_is_NaN(src2) | m2_expr.expr_is_NaN(src1), src2,
+            m2_expr.expr_is_NaN(src2) | m2_expr.expr_is_NaN(src1) | both_zero,
+            src2,
             m2_expr.ExprCond(comp, src1, src2)
         )
     )
